@@ -56,6 +56,9 @@ func CfgName(c model.Cfg) string {
 	case c.ProtoTime:
 		s = "protoTime"
 	}
+	if c.Plain[model.TimeT] == model.SpBQTime {
+		s += "+bqTime"
+	}
 	return s
 }
 
